@@ -18,6 +18,7 @@ from symex.runner import Obligation, world
 
 PI = math.pi
 M = 1e-6
+NEAR = 1e-10       # rounding of a computed point's longitude (arctan2 of an intersection point)
 FUNCS = ["arcs._point_within_gca_body", "arcs.in_between", "arcs._decide_pole_latitude", "arcs.point_within_gca (replay)", "arcs.extreme_gca_latitude"]
 
 
@@ -58,7 +59,8 @@ def make_pwg(oid, case, directed=False, tiers=("quick", "thorough")):
                 ctx.assume(dl < PI - M)
         elif case == "meridian":
             ctx.assume(z(l0) == z(l1), z3.Or(z(p0) - z(p1) > M, z(p1) - z(p0) > M))
-            ctx.assume(z3.Or(z(lp) == z(l0), z(lp) - z(l0) > M, z(l0) - z(lp) > M))
+            # the query longitude is either that of the arc up to rounding of a computed point (1e-10 rad) or clearly different
+            ctx.assume(z3.Or(z3.And(z(lp) - z(l0) <= sc.lift(NEAR), z(l0) - z(lp) <= sc.lift(NEAR)), z(lp) - z(l0) > M, z(l0) - z(lp) > M))
             for p in (p0, p1):
                 ctx.assume(z3.Or(z(pp) - z(p) > M, z(p) - z(pp) > M))
         elif case == "pole":
@@ -76,7 +78,7 @@ def make_pwg(oid, case, directed=False, tiers=("quick", "thorough")):
         if case == "generic":
             return z3.If(hi - lo < PI, z3.And(lp >= lo, lp <= hi), z3.Or(lp >= hi, lp <= lo))
         if case == "meridian":
-            return z3.And(lp == l0, z3.Or(z3.And(p0 <= pp, pp <= p1), z3.And(p1 <= pp, pp <= p0)))
+            return z3.And(lp - l0 <= sc.lift(NEAR), l0 - lp <= sc.lift(NEAR), z3.Or(z3.And(p0 <= pp, pp <= p1), z3.And(p1 <= pp, pp <= p0)))
         north = p0 + p1 > 0
         return z3.If(north, z3.Or(z3.And(lp == l0, pp >= p0), z3.And(lp == l1, pp >= p1)),
                      z3.Or(z3.And(lp == l0, pp <= p0), z3.And(lp == l1, pp <= p1)))
@@ -111,6 +113,26 @@ def make_pwg(oid, case, directed=False, tiers=("quick", "thorough")):
 
     def replay(v):
         from uxarray.grid.arcs import point_within_gca
+        if case == "meridian" and 0 < abs(v["lonp"] - v["lon0"]) <= 2 * NEAR:
+            # a longitude off by rounding only is what a COMPUTED point has: take the intersection of the meridian arc with a crossing arc
+            from uxarray.grid.intersections import gca_gca_intersection
+            lo_, hi_ = sorted((v["lat0"], v["lat1"]))
+            if hi_ - lo_ < 0.05 or max(abs(lo_), abs(hi_)) > 1.3:
+                lo_, hi_ = 0.1, 0.3          # a degenerate model span tells nothing about computed points: use an ordinary arc
+            for lon in (v["lon0"], math.radians(20.0), math.radians(45.0), math.radians(-100.0) % (2 * PI)):
+                for frac in (0.5, 0.25, 0.8):
+                    lat = lo_ + frac * (hi_ - lo_)
+                    for h in (math.radians(3.0), math.radians(0.3), math.radians(0.003)):
+                        if hi_ - lo_ < 4 * M or abs(lat) > 1.4:
+                            continue
+                        crs = np.array([_ll_to_xyz(lon - h, lat), _ll_to_xyz(lon + h, lat)])
+                        for m0, m1 in ((lo_, hi_), (lat - h, lat + h)):          # the model's meridian arc, and a short one around the crossing
+                            mer = np.array([_ll_to_xyz(lon, m0), _ll_to_xyz(lon, m1)])
+                            got = np.asarray(gca_gca_intersection(mer, crs)).reshape(-1, 3)
+                            if len(got) != 1:
+                                return (f"meridian arc lon {math.degrees(lon):.4f} lat [{math.degrees(m0):.4f},{math.degrees(m1):.4f}] deg crossed at lat {math.degrees(lat):.4f} by an arc of half-length "
+                                        f"{math.degrees(h)} deg: gca_gca_intersection returned {len(got)} points (the computed point's longitude differs from the arc's by rounding only and is rejected)")
+            return None
         if case in ("pole", "meridian"):
             # rotate about the polar axis so that the arc lies in the plane y = 0 (replay-friendly: the plane test is then exactly 0
             # in float64); the property holds for the rotated configuration just the same
@@ -318,7 +340,7 @@ def make_intersect(oid):
                 ctx.assume(sc.z(symnp.dot(a, b)) == 0)
             # ... and the arcs lie on different great circles
             c = [sc.z(x) for x in cn.flat_list()]
-            ctx.assume(z3.Or(*[z3.Or(x > sc.lift(1e-6), x < -sc.lift(1e-6)) for x in c]))
+            ctx.assume(z3.Or(*[z3.Or(x > sc.lift(1e-12), x < -sc.lift(1e-12)) for x in c]))      # short arcs have small normals: only (near-)machine-zero is 'collinear' 
             nrm = symnp.linalg.norm(cn)
             x1 = [sc.z(x) for x in (cn / nrm).flat_list()]
             x2 = [-x for x in x1]
@@ -355,7 +377,10 @@ def make_intersect(oid):
                  (((10, 0), (20, 0)), ((30, 5), (30, 25)), []),                            # ... outside both
                  (((170, 10), (-170, 10)), ((180, -5), (180, 40)), None),                  # across the antimeridian: one point, on both arcs
                  (((-150, 0), (-110, 0)), ((-130, -20), (-130, 25)), [ll(-130, 0)]),       # the antipode of the first candidate is the answer
-                 (((0, 60), (90, 60)), ((45, 50), (45, 89)), None)]
+                 (((0, 60), (90, 60)), ((45, 50), (45, 89)), None),
+                 # two short arcs (1e-4 rad) crossing at right angles: the plane normals are tiny but the great circles differ
+                 (((20.0 - 0.003, 10.0), (20.0 + 0.003, 10.0)), ((20.0, 10.0 - 0.003), (20.0, 10.0 + 0.003)), None),
+                 (((-100.0 - 0.004, -40.0), (-100.0 + 0.002, -40.0)), ((-100.0, -40.0 - 0.002), (-100.0, -40.0 + 0.004)), None)]
         for a1, a2, want in cases:
             for swap_arcs in (False, True):
                 for flip in (False, True):
@@ -373,7 +398,7 @@ def make_intersect(oid):
 
     return Obligation(oid, "gca_gca_intersection returns exactly the candidates lying on both arcs", setup, run, replay, exact=False,
                       functions=["intersections.gca_gca_intersection", "utils.computing.cross/dot/norm/allclose"],
-                      bounds="all endpoint vectors in [-1,1]^3 treated as exact unit vectors on two different great circles (|n1 x n2| component > 1e-6); fma_disabled=True",
+                      bounds="all endpoint vectors in [-1,1]^3 treated as exact unit vectors on two different great circles (some component of n1 x n2 beyond 1e-12, so also short arcs); fma_disabled=True",
                       stubs=["arcs.point_within_gca: abstract predicate W(point, arc) (its exactness is C14.pwg.*)", "products/quotients/sqrt uninterpreted (values compared as terms)"],
                       assumptions=["cross products are orthogonal to their factors (exact arithmetic): the accuracy warnings do not fire"], timeout_s=900)
 
